@@ -294,9 +294,25 @@ Definition count_not_nil (c : countarg) : bool := match c with CNil => false | _
 Definition count_not_num (c : countarg) : bool := match c with CNum _ => false | _ => true end.
 Definition start_absent (o : option nat) : bool := match o with None => true | Some _ => false end.
 
+(* only keywords the function has: :test for the item functions, :count for remove / delete / substitute *)
+Definition takes_no_test (f : fname) : bool :=
+  match f with
+  | FFindIf | FPositionIf | FCountIf | FRemoveIf | FDeleteIf | FSubstituteIf | FNsubstituteIf
+  | FMemberIf | FAssocIf | FAssocIfNot | FRassocIf => true
+  | _ => false
+  end.
+Definition takes_count (f : fname) : bool :=
+  match f with
+  | FRemove | FRemoveIf | FDelete | FDeleteIf | FSubstitute | FSubstituteIf | FNsubstitute | FNsubstituteIf => true
+  | _ => false
+  end.
+Definition keywords_ok (c : call) : bool :=
+  (negb (takes_no_test (c_fn c)) || match c_test c with TDefault => true | _ => false end) &&
+  (takes_count (c_fn c) || match c_count c with CAbsent => true | _ => false end).
+
 Definition in_domain (c : call) : bool :=
   let l1 := elems (c_seq c) in let l2 := elems (c_seq2 c) in
-  bounds_ok c && seq_ok (c_seq c) && seq_ok (c_seq2 c) &&
+  bounds_ok c && seq_ok (c_seq c) && seq_ok (c_seq2 c) && keywords_ok c &&
   match c_fn c with
   | FFind | FPosition => not_test_not (c_test c)                       (* KF :test-not *)
   | FFindIf | FPositionIf => true
